@@ -506,6 +506,13 @@ func (h *H) makeCtor(r *Reg) any {
 		in.CreatedSeq = h.nextSeq()
 		return pv.Interface()
 	}
+	if r.FuncKind != KMakeFunc && staticKindApplicable(r) {
+		f := factories[r.Outs[0].T.RT()]
+		if r.FuncKind == KClosure {
+			return f.closure(h, r)
+		}
+		return f.method(h, r)
+	}
 	ft := funcType(r)
 	fn := reflect.MakeFunc(ft, func(args []reflect.Value) []reflect.Value {
 		return h.ctorBody(r, ft, args)
@@ -660,7 +667,15 @@ func (h *H) ctorBody(r *Reg, ft reflect.Type, args []reflect.Value) []reflect.Va
 func (h *H) newOut(r *Reg, i int, inv *Invocation) reflect.Value {
 	o := r.Outs[i]
 	pv := reflect.New(o.Concrete.RT().Elem())
-	in := pv.Interface().(inster).inst()
+	h.adoptOut(r, i, inv, pv.Interface().(inster).inst())
+	return pv
+}
+
+// adoptOut enters a freshly allocated instance into the ledger as output i of inv.
+//
+//go:norace
+func (h *H) adoptOut(r *Reg, i int, inv *Invocation, in *Inst) {
+	o := r.Outs[i]
 	in.Reg, in.OutIdx, in.Inv = r.ID, i, inv.ID
 	h.addInst(in)
 	in.CreatedSeq = h.nextSeq()
@@ -672,7 +687,29 @@ func (h *H) newOut(r *Reg, i int, inv *Invocation) reflect.Value {
 		}
 	}
 	inv.Outs = append(inv.Outs, in.ID)
-	return pv
+}
+
+// enterInv / exitInv: invocation bookkeeping for constructors without arguments.
+//
+//go:norace
+func (h *H) enterInv(r *Reg) *Invocation {
+	inv := &Invocation{Reg: r.ID, N: h.regN[r.ID], Task: -1, Op: -1, Outcome: OutRunning}
+	h.regN[r.ID]++
+	if t := simrt.Current(); t != nil {
+		inv.Task = t.ID
+		inv.Op = h.curOp[t.ID]
+	}
+	h.addInv(inv)
+	inv.EnterSeq = h.event(EvCtorEnter, inv.ID, -1)
+	simrt.Yield(siteCtorEnter)
+	return inv
+}
+
+//go:norace
+func (h *H) exitInv(inv *Invocation) {
+	simrt.Yield(siteCtorExit)
+	inv.Outcome = OutOK
+	inv.ExitSeq = h.event(EvCtorExit, inv.ID, -1)
 }
 
 // ---------------------------------------------------------------------------
